@@ -11,7 +11,7 @@ import os
 from vlib.common import Check, rng, run_case, pmap, workdir, cleanup, short
 
 CLASSES = ['PersistentThreadWorker', 'PersistentProcessWorker', 'PersistentRemoteWorker']
-STATES = ['never-used', 'results-unread', 'inputs-queued', 'closed', 'died-by-exception', 'killed', 'uncooperative', 'busy', 'slow-exit', 'slow-results', 'died-by-unrebuildable-exception', 'busy-blocking']
+STATES = ['never-used', 'results-unread', 'inputs-queued', 'closed', 'died-by-exception', 'killed', 'uncooperative', 'busy', 'slow-exit', 'slow-results', 'died-by-unrebuildable-exception', 'busy-blocking', 'stopped', 'holding-gil']
 
 
 def kind_of(cls):
@@ -93,6 +93,15 @@ def case(spec, log):
             # incarnation's results are still arriving when restart() is called
             enq(kind='slowbox'); enq(kind='slowbox'); enq(kind='slowbox')
             time.sleep(0.3)
+        elif state in ('stopped', 'holding-gil'):
+            # the child cannot even look at a termination request: restart has to fall back on force (process/remote kinds)
+            if own:
+                return {'skipped': 'not a thread-kind state'}
+            enq(kind=('slow' if state == 'stopped' else 'gil'))
+            time.sleep(0.3)
+            if state == 'stopped':
+                os.kill(w.pid, signal.SIGSTOP)
+                time.sleep(0.3)
         elif state == 'busy-blocking':
             # busy in one blocking call after the other: a termination request is noticed within ~0.4 s, i.e. the
             # worker can be stopped, only not within a very short restart timeout
@@ -209,7 +218,7 @@ def judge(chk, spec, res):
 def run(tier):
     thorough = tier == 'thorough'
     chk = Check('C17', 'exploration', tier,
-                'states at restart {never used, results unread, inputs queued, closed, died by exception, died by an exception that cannot be rebuilt in the parent, killed by signal, uncooperative target, busy, busy in blocking calls (restart timeouts 0-0.3 s), slow exit, results still arriving (slow to rebuild)} x 1-3 consecutive restarts x thread/process/remote x {own pipe, caller-supplied Pipe}; '
+                'states at restart {never used, results unread, inputs queued, closed, died by exception, died by an exception that cannot be rebuilt in the parent, killed by signal, uncooperative target, busy, busy in blocking calls (restart timeouts 0-0.3 s), SIGSTOPped, holding the interpreter lock in a C call, slow exit, results still arriving (slow to rebuild)} x 1-3 consecutive restarts x thread/process/remote x {own pipe, caller-supplied Pipe}; '
                 'distinct non-trivial = distinct (class, state, restarts, pipe, between-hop states)')
     r = rng('c17')
     jobs = []
